@@ -691,7 +691,13 @@ func (d *docState) writePageObjects(p *pageState, lines []Line, set map[int]Obj,
 			s.LenIndirect = true
 			s.LenRef = Ref{ln, 0}
 			d.lenObjs[num] = ln
-			s.Raw = Encode(s.Plain, s.Filters, r)
+			plain := s.Plain
+			if d.w.Hook != nil {
+				if hp, ok := d.w.Hook("plain", num, Str{B: plain}).(Str); ok {
+					plain = hp.B
+				}
+			}
+			s.Raw = Encode(plain, s.Filters, r)
 			set[ln] = len(s.Raw)
 		}
 		set[num] = s
